@@ -1715,8 +1715,8 @@ void h_e2e_copy_ext(void) {
 #endif
 
 /* ---- C19/C06 "slots released ... are reused", C05 "slot released on failure": after an add() that failed because its value could
- *      not be stored, the slot it had taken is back: the next add() of a small value needs no new pool (configuration with
- *      3-slot pools: the third element fills the pool, its 64-bit value needs a slot of a new pool, whose allocation may fail) -- */
+ *      not be stored, the slot it had taken is back: the next add() of a small value needs no new pool (the element takes the
+ *      last slot of the first pool, its 64-bit value needs a slot of a new pool, whose allocation may fail) ------------------- */
 #ifdef E2E_ADD
 void h_e2e_add_failure(void) {
   alloc_reset();
@@ -1735,12 +1735,19 @@ void h_e2e_add_failure(void) {
   struct JsonArray arr; arr.data_ = &d->data_.content_.asArray; arr.resources_ = &d->resources_;
   struct JsonVariantConst big; big.data_ = &e->data_; big.resources_ = &e->resources_;
   g_expected_allocator = ad;
-  unsigned pre = in_u8();
-  __CPROVER_assume(pre <= 2);
-  _Bool ok_pre = 1;
-  if (pre >= 1) ok_pre = ok_pre && api__e2e_array_add_int(arr, 1);
-  if (pre >= 2) ok_pre = ok_pre && api__e2e_array_add_int(arr, 2);
-  __CPROVER_assume(ok_pre);
+  /* the document already handed out all but `left` slots of its first pool (a state every history of CAP - left allocations reaches;
+   * built directly: a pool block of CAP slots entered in the ledger, usage CAP - left, empty free list, inline table) */
+  unsigned left = in_u8();
+  __CPROVER_assume(left >= 1 && left <= 2);
+  {
+    struct MemoryPoolList_ResourceManager__SlotData *l = &d->resources_.variantPools_;
+    union ResourceManager__SlotData *blk = (union ResourceManager__SlotData *)Allocator__allocate(ad, (size_t)CFG_CAP * sizeof(union ResourceManager__SlotData));
+    l->pools_[0].slots_ = blk;
+    l->pools_[0].capacity_ = (__typeof__(l->pools_[0].capacity_))CFG_CAP;
+    l->pools_[0].usage_ = (__typeof__(l->pools_[0].usage_))(CFG_CAP - left);
+    l->count_ = 1;
+  }
+  unsigned pre = 3 - left; /* (left == 1: the element takes the last slot, its 64-bit value needs a new pool) */
   g_alloc_may_fail = 1;
   unsigned calls0 = g_alloc_calls, fails0 = g_alloc_failures;
   _Bool r = api__e2e_array_add_variant(arr, big);      /* takes one slot for the element, one more for the 64-bit value */
